@@ -16,5 +16,6 @@ CONSTANTS
   Hyp_RhsCachedByName = FALSE
   Hyp_SteadyOneShot = FALSE
   Hyp_SettingsSurviveReparse = FALSE
+  Hyp_TraceNeedsStepLog = FALSE
 POSTCONDITION AllConsumed
 CHECK_DEADLOCK FALSE
